@@ -704,15 +704,19 @@ PROPS = {
     "C14": {
         "suites": [("print", 4000, 100000), ("asp_parse", 3000, 60000)],
         "extra": roundtrip_extra("C14", "asp"),
-        "rule": "(a) Display of generated programs vs the Lean printer model, text equality; (b) round trip on the real pest parser: a generated tree (identifier pool incl. not, nota, notify, forall, _a) is rendered fully "
-                "parenthesised, parsed (tree t1 in the parser's image), printed, re-parsed (must equal t1) and printed again (must be the same text)",
-        "level_text": "Partial: the printer is modelled exactly and its grouping facts are proved (unary minus vs negative numerals, parenthesisation by binding strength, neck of constraints); the pest parser is not modelled, "
-                      "so the round trip is explored, not proved; one known finding (identifier `not`).",
-        "level_note": PROOF_NOTE + " pest's PEG matching and Pratt parser are exercised, not modelled.",
-        "technique": "Lean 4 (printer model + grouping lemmas) + differential correspondence (text) + round-trip exploration on the real parser",
+        "rule": "(a) Display of generated programs vs the Lean printer model, text equality; (b) asp_parse: text.parse::<Program>() vs the Lean model of the grammar and tree builder (accepted or not, and the tree) "
+                "on printed programs, fully parenthesised renderings, re-spaced / commented variants, near-miss edits and a corpus of corner cases (corpus/asp_texts.txt); (c) round trip on the real pest parser: a generated tree "
+                "(identifier pool incl. not, nota, notify, forall, _a) is rendered fully parenthesised, parsed (tree t1 in the parser's image), printed, re-parsed (must equal t1) and printed again (must be the same text)",
+        "level_text": "Full for the model, except for the name `not`: roundtrip (parseProgram (printProgram p) = some p) and print_parse_print for every program whose names have the grammar's lexical shape and are not `not` "
+                      "(Program.WF) - every operator nesting and associativity, unary minus on numerals vs negative numerals, intervals on either side, all head kinds, empty bodies, constraints. Proved at the character "
+                      "level (white space skipping, the look-aheads !integer / !negation / !\".\", ordered choice comparison-before-literal) and at the pair level (pratt_flat_eq: pest's Pratt algorithm inverts the printer's "
+                      "parenthesisation). Printer and parser models are tied to the Rust code by exact correspondence. The excluded case is a genuine defect (known finding: identifier `not`).",
+        "level_note": PROOF_NOTE + " pest itself (PEG matching, implicit skipping, Pratt parser) is modelled from its documentation and source (pest 2.8.2) and tied by the asp_parse correspondence; that a tree in the "
+                      "parser's image has names of the grammar's lexical shape is evident from the lexer model but not stated as a theorem.",
+        "technique": "Lean 4 proof (character-level parser inversion by induction on terms/atoms/bodies/rules/programs + Pratt inversion) + differential correspondence (printer text, parser trees) + round-trip exploration on the real parser",
         "design_ref": "DESIGN.md 6/C14",
-        "trusted_base": COMMON_TRUST + ["pest parser (exercised, not modelled)"],
-        "assumptions": COMMON_ASSUME,
+        "trusted_base": COMMON_TRUST + ["the Lean model of pest's PEG semantics (ordered choice, greedy repetition, implicit WHITESPACE/COMMENT skipping) and of its Pratt parser, tied by correspondence"],
+        "assumptions": COMMON_ASSUME + ["numerals within isize (beyond it the Rust tree builder panics: C16 known finding)"],
     },
     "C15": {
         "suites": [("print", 4000, 100000)],
